@@ -2,6 +2,8 @@ pub mod heap_parameters;
 pub mod vm_layout;
 
 mod mmapper;
+#[cfg(mmtk_verif)]
+pub(crate) use self::mmapper::csm::ChunkStateMmapper;
 pub use self::mmapper::Mmapper;
 
 mod map;
